@@ -250,6 +250,7 @@ theorem program_started_at_most_once_per_activation (tbl : List IfaceRow) (a : A
       | invalid c => exact Eff.same rfl rfl rfl
       | close c => exact Eff.same rfl rfl rfl
       | timeout => exact Eff.same rfl rfl rfl
+      | stall c on => exact Eff.same rfl rfl rfl
     | childExited k err =>
       cases err with
       | none => exact Eff.same rfl rfl rfl
